@@ -906,4 +906,27 @@ theorem small_of_chunkFree_pairs (kvs : List (PData × PData)) (h : chunkFreePai
     exact ⟨⟨small_of_chunkFree k h.1.1, small_of_chunkFree v h.1.2⟩, small_of_chunkFree_pairs kvs h.2⟩
 end
 
+/-! ## `from_primitive` accepts the decoded top-level object -/
+
+theorem rawFromPrimitive_primOf (cext : Bool) (d : PData) (hc : chunkFree d = true) (ht : topOk cext d = true) :
+    rawFromPrimitive (primOf (!cext) d) = some (primOf (!cext) d) := by
+  cases d with
+  | constr c fs =>
+    simp only [primOf, primConstr]
+    cases getTag c <;> rfl
+  | list xs =>
+    simp only [topOk, Bool.and_eq_true, Bool.not_eq_true'] at ht
+    obtain ⟨h1, h2⟩ := ht
+    subst h1
+    cases xs with
+    | nil => simp at h2
+    | cons x xs => simp [primOf, primOfList, primSeq, rawFromPrimitive]
+  | map kvs => rfl
+  | int i => rfl
+  | bytes b =>
+    simp only [chunkFree, decide_eq_true_eq] at hc
+    have : ¬ b.length > 64 := by omega
+    simp [primOf, primBytes, this, rawFromPrimitive]
+
+
 end Pyc.Plutus
